@@ -139,6 +139,10 @@ pub struct Ca {
     pub withheld: bool,
     /// A prefix this CA does not hold (used by `Fault::Overclaim`).
     pub outside: String,
+    /// Explicit file name of the manifest below `repo` (default `<name>.mft`;
+    /// may be empty: the manifest URI is then the directory URI `repo`).
+    #[serde(default)]
+    pub mft_name: Option<String>,
 }
 
 impl Ca {
@@ -152,10 +156,16 @@ impl Ca {
             mft_validity: (-2, 24), mft_serial: 1, mft_fault: Fault::None,
             crl: (-2, 24), crl_fault: Fault::None,
             objects: Vec::new(), withheld: false, outside: "198.51.100.0/24".into(),
+            mft_name: None,
         }
     }
 
-    pub fn mft_uri(&self) -> String { format!("{}{}.mft", self.repo, self.name) }
+    pub fn mft_uri(&self) -> String {
+        match self.mft_name.as_ref() {
+            Some(n) => format!("{}{}", self.repo, n),
+            None => format!("{}{}.mft", self.repo, self.name),
+        }
+    }
     pub fn crl_uri(&self) -> String { format!("{}{}.crl", self.repo, self.name) }
 }
 
@@ -208,8 +218,10 @@ impl World {
         let ca = &self.cas[i];
         match ca.parent {
             Some(p) => format!("{}{}.cer", self.cas[p].repo, ca.name),
+            // (the first rsync URI: the value ends up in caIssuers, which is an rsync URI)
             None => self.tals.iter().find(|t| t.ca == i)
-                .and_then(|t| t.uris.first().map(|u| u.0.clone()))
+                .and_then(|t| t.uris.iter().map(|u| u.0.clone())
+                    .find(|u| u.len() >= 8 && u[..8].eq_ignore_ascii_case("rsync://")))
                 .unwrap_or_else(|| format!("rsync://ta.verif.test/ta/{}.cer", ca.name)),
         }
     }
